@@ -115,7 +115,6 @@ func (a *Analyzer) StoreField(st *State, p Term, pt types.Type, name string, v T
 // Nil returns the nil value of a pointer-like type.
 func Nil(t types.Type) Term { return NilT{Typ: t} }
 
-
 // Mark records an opaque fact in st (inherited by all states forked from it); Marked tests it.
 func (a *Analyzer) NewMark() int { return a.id() }
 
